@@ -56,6 +56,14 @@ func apiGet(url string) (body []byte, err error) {
 		return
 	}
 
+	// A failed HTTP status is never a success, even if the text of the error looks like a success response.
+	if resp.StatusCode != http.StatusOK {
+		if code, _, e := apiParse(url, body); e == nil && code == 0 {
+			err = fmt.Errorf("api status failed, url=%v, status=%v, body=%v", url, resp.Status, string(body))
+			return
+		}
+	}
+
 	return
 }
 
